@@ -4,7 +4,7 @@ from hypothesis import strategies as st
 from ..runner import Shard, Violation
 from ..tools import ITER_TOOLS
 from ..gen import base_case, features
-from ..core import run_async, run_sync, trace_view, first_diff
+from ..core import expect_return, run_async, run_sync, trace_view, first_diff
 
 PROPERTY = "C05"
 LEVEL = "exploration"
@@ -44,8 +44,7 @@ def check(case):
     tool = case["tool"]
     bs = run_sync(case)
     ba, outcome = run_async(case)
-    if outcome[0] != "return":
-        raise Violation(f"C05/{tool}/consumer-crash", repr(outcome))
+    expect_return(outcome, f"C05/{tool}")
     at, stt = trace_view(ba.ctx.log), trace_view(bs.ctx.log)
     d = first_diff(at, stt)
     if d is not None:
